@@ -126,7 +126,19 @@ def build(features=None, release=False):
         shutil.copy(os.path.join(REPO, "Cargo.lock"), lock)
         p = run(cmd, cwd=HARNESS, timeout=3600, check=False)
     if p.returncode != 0:
-        raise ToolError("harness build failed:\n" + (p.stdout or "")[-6000:])
+        # one binary that does not compile (e.g. a source file somebody is still writing) must not
+        # stop the checks that do not use it: build the rest, and remove the stale executables of
+        # the binaries that failed so that nothing can run an out-of-date one
+        p2 = run(cmd + ["--keep-going"], cwd=HARNESS, timeout=3600, check=False)
+        failed = set(re.findall(r'could not compile `vh` \(bin "([^"]+)"\)', p2.stdout or ""))
+        if not failed or "could not compile `vh` (lib)" in (p2.stdout or ""):
+            raise ToolError("harness build failed:\n" + (p.stdout or "")[-6000:])
+        for b in failed:
+            try:
+                os.remove(os.path.join(bindir(release), b))
+            except FileNotFoundError:
+                pass
+        log(f"[build] WARNING: binaries that do not compile were skipped: {sorted(failed)}")
     log(f"[build] features={features} {time.time()-t0:.1f}s")
     _built.add(key)
     return bindir(release)
